@@ -273,6 +273,10 @@ LoadedTimes ==
       e == Every(c)
   IN IF Len(c) = 0 THEN <<>> ELSE IF e[Len(e)] = c[Len(c)] THEN e ELSE Append(e, c[Len(c)])
 
+\* DynamicsData.time, and what the frame cursor (Solution.solve_step, load_tdgl_data) shows for every frame
+LoadedCum == Cum(LoadedDts)
+CursorView == [n \in 1..Len(frames) |-> <<frames[n].step, frames[n].time, frames[n].content>>]
+
 LoadFails ==
   \/ Len(frames) = 0
   \/ (~MEmptyLoads /\ \A n \in 1..Len(frames) : ~frames[n].hasrs)
